@@ -472,7 +472,6 @@ def run_obl(obl, want_trace_for=None):
         else:
             if not is_witness:
                 res.failed.append(p)   # UNKNOWN / ERROR statuses are never a pass
-    res.props = props
     if res.failed or res.unwinding_failed:
         res.status = "FAIL"
     elif not obl.no_witness and not witness_failed:
